@@ -28,6 +28,9 @@ fn eval_to_sexp(r: Result<Complex64, EvaluationError>) -> Sexp {
         Err(EvaluationError::Incomplete) => tagged("err", vec![atom("incomplete")]),
         Err(EvaluationError::NumberNotReal) => tagged("err", vec![atom("number_not_real")]),
         Err(EvaluationError::NotANumber) => tagged("err", vec![atom("not_a_number")]),
+        // a variant added later must not break the harness: the property does not constrain the error kind
+        #[allow(unreachable_patterns)]
+        Err(_) => tagged("err", vec![atom("other")]),
     }
 }
 
